@@ -27,7 +27,7 @@ EXPLANATION = (
     "defaults are never stored/mutated; R6 a fresh visitor/generated_code per translation."
 )
 ASSUMPTIONS = [
-    "each query arrives as its own AST object (attributes written on AST nodes are local to that query)",
+    "each query arrives as its own AST object, except for the recorded finding C07.R11 (the caller's tree is edited in place, so re-translating the same object differs)",
     "objects created inside a translation (visitor, generated_code, representations) die with it unless stored in an inventoried cell",
     "numbering of generated names is outside the property (unique_var_index is allowed to survive)",
 ]
